@@ -49,6 +49,10 @@ CLAIMED = {
    technique="TLA+ bit-level arithmetic (Arith.tla) proved by TLC exhaustion at small widths against integer arithmetic, then used at W=128 as the oracle; exact small model of doubles; type-dispatch table; replay through eval; random i128 pairs judged by TLC (Trace_Arith)",
    text="TLC proves by exhaustion at widths 4-6 (all operand pairs, all shift counts) that the W-bit two's-complement operators of Arith.tla (add, sub, mul with wide-product overflow test, truncating div/rem, neg, abs, min/max, comparisons, bitwise, shifts, popcount) agree with mathematical integer arithmetic, wrapped when not representable. The same operators at W=128 give the expected result of every word on a boundary family; a small exact model of doubles (zero, infinities, NaN, m*2^e) gives the IEEE results that are exactly representable; a dispatch table says which operand-type combinations are type errors and that the error must report one of the actual operands. Every case is replayed through eval; random boundary-biased i128 pairs evaluated by the real crate are judged by TLC at 128 bits.",
    note="Rounding of inexact double results is assumed from f64; NaN comparisons, round ties and out-of-range conversions are unspecified by the property and not judged."),
+ "C12": dict(cat="model_checking", design="5/C12",
+   technique="TLA+ association-list / sequence model (Collections.tla) explored by TLC over all insert/remove/get histories and index classes; every history replayed through eval with all intermediate versions kept alive",
+   text="TLC explores every history of map insert/remove/get up to a depth over a key universe that crosses all cell types (and over int-only and string-only universes), keeping every intermediate version, with the invariant that a map holds one value per key under the language's equality; plus vector and string words at every index class (negative, out of range, beyond the machine range). Every history is replayed through eval: the predicted stack contains every version of the map and every get result, so both wrong results and a changed old version are mismatches. One recorded known finding (keys that Ord for Cell cannot order collide) is matched by signature; histories whose keys are all ints or all strings must match exactly.",
+   note="Maps are compared as sets of pairs; sort is judged on integers only; NaN is never a key."),
 }
 
 PENDING_REASON = "check not built yet in this build session (planned, DESIGN.md section 12); no claim is made for it"
